@@ -9,13 +9,13 @@ CLAIMED = {
  "C01": ("held on N executions: every satisfaction returned by get_satisfaction(_mall) and by plan+Plan::satisfy for generated descriptors of every output type x asset worlds was executed in an independent Script VM under STANDARD and CONSENSUS flags with real signatures over the real transaction; bounded by fragment size, 8-key universe and sampled worlds (see evidence)",
          "trusted base: refvm (own VM, validated by ./check selftest), secp256k1, bitcoin::sighash; generators guided by the specification typing model",
          "runtime monitoring: reference-model monitor (independent Script VM executes every produced satisfaction)"),
- "C02": ("held on N executions: every refusal of the satisfier/planner was challenged by an exhaustive lazy witness search over the caller's own assets in the reference VM; budget exhaustion is inconclusive",
+ "C02": ("held on N executions: every refusal of the satisfier/planner (harness signer, the library's own lock-time and map satisfiers) was challenged by an exhaustive lazy witness search over the caller's own assets in the reference VM, and every refusal of the PSBT finalizer (all signers, and a subset of signers and preimages) by the direct satisfier holding the same material; budget exhaustion is inconclusive",
          "trusted base: refvm + lazy search (cross-checked against plain enumeration in ./check selftest and against the library's own witnesses on positive cases)",
          "runtime monitoring: reference-model monitor (lazy symbolic witness search as ground truth for 'a witness exists')"),
  "C03": ("held on N executions: for every non-malleable satisfaction of a sane descriptor the adversary-alphabet search over all spending paths found no second accepted witness; insane descriptors serve as positive control of the oracle",
          "trusted base: refvm + lazy search; STANDARD flags",
          "runtime monitoring: reference-model monitor (adversarial witness search in an independent Script VM)"),
- "C05": ("complete for the rule functions: every public typing rule on every tuple of reachable child types (closure of the specification model) for arity <= 3, thresholds to n<=3/4 exhaustively and sampled to n=20; plus parser dispatch on generated fragments",
+ "C05": ("complete for the rule functions: every public typing rule on every tuple of reachable child types (closure of the specification model) for arity <= 3, thresholds to n<=3/4 exhaustively and sampled to n=20; plus parser dispatch on generated fragments and the leaf constructors against the dispatcher",
          "trusted base: oracle::spec_types (hand transcription of the specification tables, validated against the repository's 23k Alloy-derived vectors); only the listed deliberate conservatism (d: never u) may be weaker",
          "runtime monitoring: exhaustive differential execution of the real rule functions against a specification model"),
  "C09": ("held on N executions: every produced satisfaction was measured (bytes, elements, weight, executed opcodes and stack depth from the VM trace) and compared with the declared static figures",
@@ -25,12 +25,12 @@ CLAIMED = {
          "trusted base: refvm::script parser for push minimality; structural identity is not demanded (several miniscripts share a script)",
          "runtime monitoring: differential round-trip monitor over generated and mutated inputs"),
  "C13": ("held on N executions: interpreter verdicts and reported constraints compared with an independent Script VM on library satisfactions, 1-3-step witness mutations and re-signed lock-time worlds",
-         "trusted base: refvm (consensus flags) and its trace; tx version 2 only",
+         "trusted base: refvm (consensus flags) and its trace; transaction version 2; relative locks compared by their BIP-68/112 meaning",
          "runtime monitoring: reference-model monitor (interpreter accept => VM accept; constraint multiset == VM trace)"),
  "C18": ("held on N executions: every transformation compared with full truth tables over <= 8-10 atoms and with path enumeration",
          "trusted base: pol.rs evaluator and independent policy text parser; atoms are independent propositional variables",
          "runtime monitoring: differential execution against a truth-table model"),
- "C19": ("held on N pairs/triples incl. targeted mutation pairs: equality, order and hash laws against canonical-string identity",
+ "C19": ("held on N pairs/triples incl. targeted mutation pairs: equality, order and hash laws against canonical-string identity, transitivity over every triple of a bag, used (caches filled) against fresh equal values",
          "trusted base: Display output as structural identity",
          "runtime monitoring: algebraic-law monitor over generated and mutated object pairs"),
 }
@@ -57,10 +57,10 @@ CLAIMED.update({
  "C14": ("held on N histories: PSBT operation histories with snapshots after each call checked against a sequential model (atomic failure, final inputs frozen, idempotence, order independence, single == all) and every final input / extracted tx executed in the VM",
          "trusted base: refvm, oracle::bip341/bip32; signer-side field additions are harness actions, not judged",
          "runtime monitoring: history recording at the client boundary + offline sequential-model checker + VM execution"),
- "C15": ("held on N trees incl. ALL shapes <= 6 leaves and chains to the depth limit: merkle root, output key, control blocks and leaf order against the BIP-341 model; spend_info cache raced by 16 threads",
+ "C15": ("held on N trees incl. ALL shapes <= 6 leaves and chains to the depth limit: merkle root, output key, address, control blocks and leaf order against the BIP-341 model; every way of driving the leaf iterators; trees of cloned leaf objects; constructors at the depth limit; spend_info cache raced by 16 threads",
          "trusted base: oracle::bip341 (validated against BIP-341 wallet vectors in selftest); tagged hashes / secp tweak from dependencies",
          "runtime monitoring: reference-model monitor + concurrent stress on the shared cache with pointer-equality oracle"),
- "C16": ("held on N executions: scripts, addresses and derived keys of generated descriptors of every wrapper against byte templates and a BIP-32 model",
+ "C16": ("held on N executions: scripts, addresses and derived keys of generated descriptors of every wrapper against byte templates and a BIP-32 model (public derivation by the harness's own model, private derivation over mixed hardened / unhardened paths by rust-bitcoin); sortedmulti through parser and constructors in every key order",
          "trusted base: oracle::bip32 (CKDpub/CKDpriv transcription), template builders; secp256k1/HMAC from dependencies",
          "runtime monitoring: reference-model monitor (templates and BIP-32 model)"),
  "C17": ("held on N executions: plans computed from generated Assets were satisfied with exactly the planned material and executed in the VM; plan existence compared with key-source coverage; sizes with measured witnesses",
